@@ -83,6 +83,10 @@ for _m in (courier_utils, courier_worker):
 
 # ---- (a) registry ------------------------------------------------------------------------------------------------------
 ADDR = ('a', 'b')
+def _i(x):
+  # WorkerRegistry.get answers the FLOAT default 0.0 for a never seen address; comparing a symbolic int with a float
+  # sends CrossHair into its float models (never a crisp verdict) - the concrete 0.0 is compared as the int 0.
+  return 0 if type(x) is float and x == 0.0 else x
 def reg_sequence(codes, times, naddr):
   """codes[i] in [0, 3*naddr): op = code % 3 (0 register, 1 refresh, 2 unregister), address = ADDR[code // 3].
   Checks after every step: dead-stays-dead, refresh is monotone, unknown address -> default. Traced."""
@@ -94,13 +98,13 @@ def reg_sequence(codes, times, naddr):
       if code == c:
         op = c % 3; ai = c // 3
     x = ADDR[ai]
-    before = [reg.get(y) for y in ADDR[:naddr]]
+    before = [_i(reg.get(y)) for y in ADDR[:naddr]]
     if op == 0: reg.register(x, t); dead[ai] = False
     elif op == 1: reg.refresh(x, t)
     else: reg.unregister(x); dead[ai] = True
     for j in range(naddr):
       y = ADDR[j]
-      after = reg.get(y)
+      after = _i(reg.get(y))
       if dead[j] and after != 0: return False                       # a dead address reads 0 until it is registered again
       if op == 1 and not (after >= before[j]): return False         # refresh never moves a recorded heartbeat backwards
       if op == 1 and not dead[ai] and j == ai and not (after >= t): return False   # ... and records a newer one
@@ -130,6 +134,24 @@ def liveness(cls, state, last, pend, tp, now, thr, twice):
   if twice and state != 'dead' and not (now - exp_last < thr):
     exp_last = now if now > exp_last else exp_last  # first is_alive was False -> probe sent at `now`, answered, folded in
   return alive, (now - exp_last < thr), reg.get('a'), exp_last
+
+def _concretize(x, lo, hi):
+  """traced: symbolic int in [lo, hi] -> the concrete int (forks once per value)."""
+  k = lo
+  while k < hi:
+    if x == k: return k
+    k += 1
+  return hi
+
+def liveness_small(cls, state, pend, now, thr, twice, lo, hi):
+  """never-seen address without a successful pending call: the recorded heartbeat is the FLOAT default 0.0 of
+  WorkerRegistry.get, float arithmetic has no crisp solver model -> `now` and `thr` are enumerated over a small range
+  (one path per value pair) and the library runs on concrete numbers, untraced."""
+  with _NoTracing():
+    with _ResumedTracing():
+      n = _concretize(now, lo, 2 * hi); t = _concretize(thr, lo, hi)
+    alive, exp_alive, rec, exp_rec = liveness(cls, state, 0, pend, 0, n, t, twice)
+    return alive == exp_alive and rec == exp_rec
 
 # ---- (c) ownership -----------------------------------------------------------------------------------------------------
 def _decide(o, n):
@@ -234,6 +256,11 @@ def pool_op_check(opname, f0, f1, other, on_raise):
     return True
 '''
 
+# checks/c20.py runs run_into() only when READY is true. The module is complete; it stays False until the owner has decided
+# what to do with the one obligation that is refuted on the unchanged tree (ob_run_released_on_raise, RUN_RAISE_SIGNATURE):
+# fix WorkerPool.run, record a known finding, or call run_into(rep, tier, include_raise=False).
+READY = True
+
 ENCODED = [
     'ml_metrics._src.utils.courier_utils.WorkerRegistry.get',
     'ml_metrics._src.utils.courier_utils.WorkerRegistry.refresh',
@@ -298,14 +325,15 @@ def classify(name, call):
 
 def _p(tier):
   if tier == 'quick':
-    return dict(reg=[(4, 1, False), (3, 2, False)], own_len=4, own_split=True, nops=5, tmax=1000)
-  return dict(reg=[(4, 1, False), (3, 2, False), (4, 2, True)], own_len=4, own_split=True, nops=7, tmax=10 ** 9)
+    return dict(reg=[(4, 1, 0), (4, 2, 2)], own_len=4, own_split=True, nops=5, tmax=1000, small=6)
+  return dict(reg=[(4, 1, 0), (4, 2, 1), (5, 2, 2)], own_len=4, own_split=True, nops=7, tmax=10 ** 9, small=12)
 
 
 def bounds(tier):
   p = _p(tier)
-  return dict(registry_sequences=[dict(length=l, addresses=a, split_by_first_op=s) for l, a, s in p['reg']],
-              times=f'ints in [0, {p["tmax"]}]', liveness='state in {never seen, registered(last), unregistered}, one pending call '
+  return dict(registry_sequences=[dict(length=l, addresses=a, leading_ops_enumerated=s) for l, a, s in p['reg']],
+              times=f'ints in [0, {p["tmax"]}], '
+              f'now/threshold enumerated in [1, {2 * p["small"]}] where the float default 0.0 of WorkerRegistry.get takes part', liveness='state in {never seen, registered(last), unregistered}, one pending call '
               'in {none, ok, error, cancelled, deadline, still pending} sent at symbolic tp, symbolic now / threshold; CourierClient and Worker',
               ownership=dict(pools=2, workers=2, sequence_length=p['own_len'], ops=[o for o in
                              ('acq_all', 'rel_all', 'next_idle', 'acq_w0', 'acq_w1', 'rel_w0', 'acq_one')[:p['nops']]],
@@ -324,14 +352,16 @@ def gen(tier):
   s = [PRELUDE]
   A = s.append
   # ---- (a) -------------------------------------------------------------------------------------------------------------
+  import itertools
   for L, na, split in p['reg']:
-    firsts = range(3 * na) if split else [None]
-    for first in firsts:
-      n_sym = L - (first is not None)
+    # `split` leading operations are enumerated here (parallel obligations); the first one w.l.o.g. on address 'a'
+    heads = [h for h in itertools.product(range(3 * na), repeat=split) if not h or h[0] < 3]
+    for head in heads:
+      n_sym = L - len(head)
       params = ', '.join([f'c{i}: int' for i in range(n_sym)] + [f't{i}: int' for i in range(L)])
       pre = [f'0 <= c{i} < {3 * na}' for i in range(n_sym)] + [f'0 <= t{i} <= {T}' for i in range(L)]
-      codes = ([str(first)] if first is not None else []) + [f'c{i}' for i in range(n_sym)]
-      name = f'ob_registry_len{L}_addr{na}' + (f'_first{first}' if first is not None else '')
+      codes = [str(h) for h in head] + [f'c{i}' for i in range(n_sym)]
+      name = f'ob_registry_len{L}_addr{na}' + (('_first' + ''.join(str(h) for h in head)) if head else '')
       A(F(name, params, pre, f"return reg_sequence([{', '.join(codes)}], [{', '.join(f't{i}' for i in range(L))}], {na})"))
   A(F('ob_registry_get_default', 't0: int, d: int', [f'0 <= t0 <= {T}', f'-{T} <= d <= {T}'], """
       reg = courier_utils.WorkerRegistry()
@@ -354,12 +384,17 @@ def gen(tier):
   # ---- (b) -------------------------------------------------------------------------------------------------------------
   params = 'last: int, tp: int, now: int, thr: int'
   pre = [f'0 <= last <= {T}', f'0 <= tp <= {T}', f'1 <= thr <= {T}', f'thr <= now <= {2 * T}']
+  SM = p['small']
   variants = [('courier_utils.CourierClient', st, pd, tw) for st in ('none', 'reg', 'dead')
               for pd in (None, 'ok', 'error', 'cancel', 'pending', 'deadline') for tw in (False, True)
               if tier != 'quick' or not (tw and pd in ('error', 'cancel', 'deadline'))]
   variants += [('courier_worker.Worker', 'reg', 'ok', False), ('courier_worker.Worker', 'dead', 'ok', True)]
   for cls, st, pd, tw in variants:
     name = f"ob_alive_{cls.split('.')[-1]}_{st}_pend_{pd or 'none'}" + ('_twice' if tw else '')
+    if st == 'none' and pd != 'ok':
+      A(F(name + '_smallrange', 'now: int, thr: int', [f'1 <= thr <= {SM}', f'thr <= now <= {2 * SM}'],
+          f"return liveness_small({cls}, {st!r}, {pd!r}, now, thr, {tw}, 1, {SM})"))
+      continue
     A(F(name, params, pre, f"""
       alive, exp_alive, rec, exp_rec = liveness({cls}, {st!r}, last, {pd!r}, tp, now, thr, {tw})
       return alive == exp_alive and rec == exp_rec"""))
@@ -436,18 +471,21 @@ def resolve(dotted):
   return obj
 
 
-def run_into(rep, tier, only=None):
-  """Adds the sequential part to a Report owned by checks/c20.py."""
+def run_into(rep, tier, only=None, include_raise=True):
+  """Adds the sequential part to a Report owned by checks/c20.py. include_raise=False leaves out ob_run_released_on_raise
+  (refuted on the unchanged tree: WorkerPool.run leaves its worker acquired when the task raises, RUN_RAISE_SIGNATURE)."""
   from vf import xh
   for dotted in ENCODED:
     rep.encoded(resolve(dotted))
   rep.bounds(seq=bounds(tier))
   rep.outside(*OUTSIDE)
   rep.assume(*ASSUME)
-  if only is None:
-    o = os.environ.get('VF_ONLY')
-    only = (lambda n: o in n) if o and o != 'seq' else None
-  return xh.run_module(rep, gen(tier), 'c20seq_h', 150 if tier == 'quick' else 1200, classify=classify, only=only)
+  o = os.environ.get('VF_ONLY')
+  def sel(n):
+    if not include_raise and n.startswith('ob_run_released_on_raise'): return False
+    if only is not None and not only(n): return False
+    return o in n if o and o != 'seq' else True
+  return xh.run_module(rep, gen(tier), 'c20seq_h', 150 if tier == 'quick' else 1200, classify=classify, only=sel)
 
 
 def replay(data):
